@@ -851,3 +851,148 @@ def r_same_walk(ctx: RuleCtx, col: Collector):
         col.ok(where_of(f), f.rel, line_of(outer), "ScalarToFile: names and values of multi-valued signals share one traversal",
                f"{n_inner} producer(s) of '{a}' / '{b}' inside the same inner loop")
     dedupe(col)
+
+
+# ---------------------------------------------------------------------------------------------------- C06
+def _db_helper(ctx: RuleCtx):
+    from .solver import _db_calls
+    lda, solve, update, calls = _db_calls(ctx)
+    g = calls[0][1]
+    appended = set()
+    for _, _, _, ap in calls:
+        appended |= set(ap)
+    return g, appended
+
+
+def _db_entry_vars(g: FuncInfo, dbs: Set[str]) -> Set[str]:
+    """Loop variables that iterate over entries of the database lists (directly or through zip)."""
+    out = set()
+    for n in ast.walk(g.node):
+        if isinstance(n, (ast.For, ast.comprehension)):
+            if _names(n.iter) & dbs:
+                out |= {x.id for x in ast.walk(n.target) if isinstance(x, ast.Name)}
+    return out
+
+
+@rule("R-DB-DTYPE", floor=3)
+def r_db_dtype(ctx: RuleCtx, col: Collector):
+    """LDAWrapper database helper: vectors stored by earlier calls may be complex while the arrays of the current call
+    are real (real matrix, complex then real right-hand side).  Every *in-place* update of a current-call array with a
+    term built from a database entry is therefore preceded, in the same block, by the complex-into-real test
+    (np.iscomplexobj on the term / entry and on the accumulator) - otherwise NumPy refuses the cast and a call fails
+    that succeeds on a fresh wrapper.  Out-of-place updates (a = a - t) promote and are fine."""
+    g, dbs = _db_helper(ctx)
+    ev = _db_entry_vars(g, dbs)
+    if not ev:
+        raise AnalysisError(f"{g.short}: no loop over the database entries found")
+    n_sites = 0
+    for n in ast.walk(g.node):
+        if not isinstance(n, ast.AugAssign) or not isinstance(n.op, (ast.Sub, ast.Add)):
+            continue
+        # term depends on a database entry variable of an enclosing loop (directly or via locals defined in that loop)
+        lp = parent(n)
+        loops = []
+        while lp is not None and lp is not g.node:
+            if isinstance(lp, ast.For):
+                loops.append(lp)
+            lp = parent(lp)
+        entry_here = set()
+        for l in loops:
+            if _names(l.iter) & dbs:
+                entry_here |= {x.id for x in ast.walk(l.target) if isinstance(x, ast.Name)}
+        if not entry_here:
+            continue
+        inner = [l for l in loops if _names(l.iter) & dbs][0]
+        dep = _dependent_names(inner, set(entry_here))
+        if not (_names(n.value) & dep):
+            continue
+        tgt = n.target
+        base = tgt
+        while isinstance(base, ast.Subscript):
+            base = base.value
+        if not isinstance(base, ast.Name) or base.id in entry_here:
+            continue
+        n_sites += 1
+        construct = f"{g.short}: '{stmt_key(n)}'"
+        # preceding statements of the same block (and enclosing blocks inside the entry loop): complex-into-real test
+        guarded = False
+        st = n
+        while st is not inner and st is not None:
+            blk = parent(st)
+            for fld in ("body", "orelse"):
+                lst = getattr(blk, fld, None)
+                if isinstance(lst, list) and st in lst:
+                    for prev in lst[:lst.index(st)]:
+                        if isinstance(prev, ast.If):
+                            t = norm(prev.test)
+                            term_names = (_names(n.value) & dep) | entry_here
+                            if "iscomplexobj(" in t and any(f"iscomplexobj({v})" in t for v in term_names) and f"iscomplexobj({base.id})" in t:
+                                guarded = True
+            st = blk
+        if guarded:
+            col.ok(where_of(g), g.rel, line_of(n), construct, "preceded by the complex-into-real test on term and accumulator")
+        else:
+            col.bad(where_of(g), g.rel, line_of(n), construct,
+                    f"'{base.id}' (dtype of the current call) is updated in place with a term built from a stored vector "
+                    f"({sorted(_names(n.value) & dep)}) without the complex-into-real test its sibling updates have: after a "
+                    f"complex right-hand side on a real matrix, a real one raises a casting error here")
+    if n_sites == 0:
+        col.ok(where_of(g), g.rel, line_of(g.node), f"{g.short}: no in-place update with database terms", "")
+    dedupe(col)
+
+
+@rule("R-GS-RANK", floor=1)
+def r_gs_rank(ctx: RuleCtx, col: Collector):
+    """LDAWrapper database helper: a new pair is stored only if what is left of its right-hand side after
+    orthogonalisation against the stored ones is significant *relative to what it was* (or to a tolerance): the
+    remainder of a linearly dependent vector is rounding noise, never exactly 0, and normalising it stores a junk pair
+    that corrupts later solves.  The iterative solvers' orth() is the sibling (ratio < zero_rtol)."""
+    g, dbs = _db_helper(ctx)
+    appends = [n for n in ast.walk(g.node) if isinstance(n, ast.Call) and isinstance(n.func, ast.Attribute) and
+               n.func.attr == "append" and isinstance(n.func.value, ast.Name) and n.func.value.id in dbs]
+    if not appends:
+        raise AnalysisError(f"{g.short}: database appends not found")
+    # the normalisation: V /= N for an appended V
+    appended_vars = {a.args[0].id for a in appends if a.args and isinstance(a.args[0], ast.Name)}
+    norms = {}
+    for n in ast.walk(g.node):
+        if isinstance(n, ast.AugAssign) and isinstance(n.op, ast.Div) and isinstance(n.target, ast.Name) and n.target.id in appended_vars \
+                and isinstance(n.value, ast.Name):
+            norms[n.value.id] = n
+        if isinstance(n, ast.Assign) and isinstance(n.targets[0], ast.Name) and n.targets[0].id in appended_vars and \
+                isinstance(n.value, ast.BinOp) and isinstance(n.value.op, ast.Div) and isinstance(n.value.right, ast.Name):
+            norms[n.value.right.id] = n
+    if not norms:
+        raise AnalysisError(f"{g.short}: normalisation of the stored pair not found")
+    for nn, at in sorted(norms.items()):
+        # enclosing loop body of the normalisation; skip tests (if ...: continue) before it that mention the norm
+        blk = parent(at)
+        lst = blk.body if at in getattr(blk, "body", []) else getattr(blk, "orelse", [])
+        tests = []
+        for prev in lst[:lst.index(at)]:
+            if isinstance(prev, ast.If) and any(isinstance(x, ast.Continue) for x in ast.walk(prev)) and nn in _names(prev.test):
+                tests.append(prev)
+        construct = f"{g.short}: significance test of the remainder norm '{nn}' before it is stored"
+        rel = False
+        exact = False
+        for t in tests:
+            for c in ast.walk(t.test):
+                if isinstance(c, ast.Compare) and nn in _names(c):
+                    others = [c.left] + list(c.comparators)
+                    for o in others:
+                        if nn in _names(o) and not (isinstance(o, ast.Name) and o.id == nn):
+                            rel = True          # norm scaled / divided inside the comparison
+                        elif not (isinstance(o, ast.Name) and o.id == nn):
+                            if isinstance(o, ast.Constant) and o.value == 0:
+                                exact = True
+                            else:
+                                rel = True
+        if rel:
+            col.ok(where_of(g), g.rel, line_of(tests[0]), construct, "compared against a scaled reference / tolerance")
+        elif exact:
+            col.bad(where_of(g), g.rel, line_of(tests[0]), construct,
+                    f"the only rank test is '{norm(tests[0].test)}': after Gram-Schmidt the remainder of a linearly dependent "
+                    f"right-hand side is rounding noise (never exactly 0); it is normalised to unit length and stored with a "
+                    f"solution that does not belong to it, so later solves on the same matrix are wrong")
+        else:
+            col.bad(where_of(g), g.rel, line_of(at), construct, "the remainder is normalised and stored without any significance test")
